@@ -4,6 +4,7 @@
 import json, os, re, sys
 VERIF = os.path.dirname(os.path.dirname(os.path.abspath(__file__)))
 seeded_txt, fixed_txt = sys.argv[1:3]
+twins_txt = sys.argv[3] if len(sys.argv) > 3 else None
 
 def seeded_table():
     rows = []
@@ -57,6 +58,38 @@ def fixed_table():
     out.append(f"{ok} of {n} reverted repairs are re-detected; the remaining ones are explained in the last column.")
     return "\n".join(out)
 
+def twin_table():
+    rows = []
+    cur = None
+    for ln in open(twins_txt):
+        m = re.match(r"^(\S+): false_alarms=(\[.*?\]) incomplete_in=(\[.*?\])", ln)
+        if m:
+            cur = {"name": m.group(1), "fa": eval(m.group(2)), "inc": eval(m.group(3)), "rules": []}
+            rows.append(cur)
+        elif cur is not None and "rule=" in ln:
+            mm = re.search(r"(C\d+): (?:ANALYSIS-INCOMPLETE property=C\d+ )?rule=(\S+)", ln)
+            if mm:
+                cur["rules"].append(f"{mm.group(1)} {mm.group(2)}")
+    out = ["| refactoring | what it restructures | first run | now |", "|---|---|---|---|"]
+    for r in rows:
+        d = os.path.join(VERIF, "twins", r["name"])
+        desc = ""
+        if os.path.exists(os.path.join(d, "notes.md")):
+            txt = open(os.path.join(d, "notes.md")).read().strip().splitlines()
+            body = [t.strip("-* #") for t in txt if t.strip() and not t.startswith("#")]
+            desc = (body[0] if body else "")[:150]
+        first = ""
+        mp = os.path.join(d, "meta.json")
+        if os.path.exists(mp):
+            m0 = json.load(open(mp))
+            first = ("false alarm " + ",".join(m0.get("false_alarms", []))) if m0.get("false_alarms") else ("not understood " + ",".join(m0.get("incomplete_in", []))) if m0.get("incomplete_in") else "silent"
+        now = ("**false alarm** " + ",".join(r["fa"])) if r["fa"] else ("not understood: " + ", ".join(sorted(set(r["rules"]))[:2])) if r["inc"] else "silent"
+        out.append(f"| {r['name']} | {desc} | {first} | {now} |")
+    out.append("")
+    out.append(f"{sum(1 for r in rows if not r['fa'] and not r['inc'])} of {len(rows)} refactorings leave every check silent, {sum(1 for r in rows if r['inc'] and not r['fa'])} end in ANALYSIS-INCOMPLETE (exit 2) in at least one check, {sum(1 for r in rows if r['fa'])} raise a false alarm.")
+    return "\n".join(out)
+
+
 p = os.path.join(VERIF, "DESIGN.md")
 s = open(p).read()
 def put(s, tag, body):
@@ -67,5 +100,7 @@ def put(s, tag, body):
     return s.replace(tag, b + "\n" + body + "\n" + e)
 s = put(s, "SEEDED_TABLE", seeded_table())
 s = put(s, "FIXED_TABLE", fixed_table())
+if twins_txt:
+    s = put(s, "TWIN_TABLE", twin_table())
 open(p, "w").write(s)
 print("tables written")
